@@ -46,8 +46,74 @@ def run(rep):
     rep.run(merge_copy)
     rep.run(incidence)
     rep.run(rxnside)
+    rep.run(side_owns_its_dict)
     rep.run(mol_guards)
     rep.run(netfold)
+
+
+# ------------------------------------------------------------------ O15.2: a side's coefficient dict belongs to that side alone
+def side_owns_its_dict(rep):
+    """remove_species / add_rxn edit `side.data` in place.  The dict stored in a side must therefore be fresh for that side: built in the storing
+    method, or returned by a helper whose every return is a container built in that call - never the result of a memoised (lru_cache / cache)
+    function, which hands the same object to every caller, and never a module-level object."""
+    from ..rules import provenance as PV
+    mi = rep.repo.module(RX)
+    meths = {q.split(".", 1)[1]: f for q, f in mi.funcs.items() if q.startswith("RXNSide.") and ".<locals>." not in q}
+
+    def cached(f):
+        return any(any(w in norm(d) for w in ("lru_cache", "cache", "memoize")) for d in f.node.decorator_list)
+
+    def callee_of(c):
+        if isinstance(c, ast.Call) and isinstance(c.func, ast.Attribute) and isinstance(c.func.value, ast.Name) and c.func.value.id in ("cls", "self", "RXNSide"):
+            return meths.get(c.func.attr)
+        return None
+
+    def classify(f, expr, depth=3):
+        """'fresh' | 'shared: why' | 'unknown: why' for the value of expr inside method f"""
+        d = local_defs(f.node)
+        verdicts = []
+        for r in PV.all_roots(d, expr):
+            if isinstance(r, (ast.Dict, ast.DictComp)) or (isinstance(r, ast.Call) and call_name(r) in ("dict", "defaultdict", "OrderedDict", "Counter", "deepcopy")):
+                verdicts.append("fresh")
+            elif isinstance(r, ast.Call) and isinstance(r.func, ast.Attribute) and r.func.attr == "copy":
+                verdicts.append("fresh")
+            elif isinstance(r, ast.Constant) and r.value is None:
+                verdicts.append("fresh")
+            elif callee_of(r) is not None and depth > 0:
+                g = callee_of(r)
+                if cached(g):
+                    verdicts.append(f"shared: `{g.qual}` is memoised ({', '.join(norm(x) for x in g.node.decorator_list)}): every caller receives the same dict object")
+                else:
+                    for ret in returns_of(g.node):
+                        if ret.value is not None:
+                            verdicts.append(classify(g, ret.value, depth - 1))
+            elif isinstance(r, ast.Name) and r.id in f.params and depth > 0:
+                # an alias of what the caller passed: look at the callers inside the class
+                idx = [p_ for p_ in f.params if p_ not in ("self", "cls")].index(r.id) if r.id in [p_ for p_ in f.params if p_ not in ("self", "cls")] else None
+                name = f.qual.split(".")[-1]
+                sites = [(h, c) for h in meths.values() for c in walk_local(h.node) if callee_of(c) is f]
+                if idx is None or not sites:
+                    verdicts.append(f"unknown: `{r.id}` is whatever the caller passes")
+                for h, c in sites:
+                    arg = c.args[idx] if idx is not None and idx < len(c.args) else next((k.value for k in c.keywords if k.arg == r.id), None)
+                    verdicts.append(classify(h, arg, depth - 1) if arg is not None else f"unknown: call of {name} without `{r.id}`")
+            elif isinstance(r, ast.Attribute) and norm(r) == "self.data":
+                verdicts.append("fresh")   # re-normalising its own dict
+            else:
+                verdicts.append(f"unknown: `{norm(r)[:50]}`")
+        bad = [v for v in verdicts if v.startswith("shared")]
+        unk = [v for v in verdicts if v.startswith("unknown")]
+        return bad[0] if bad else (unk[0] if unk else "fresh")
+
+    n = 0
+    for f in meths.values():
+        for st in walk_local(f.node):
+            if isinstance(st, ast.Assign) and len(st.targets) == 1 and isinstance(st.targets[0], ast.Attribute) and st.targets[0].attr == "data":
+                n += 1
+                v = classify(f, st.value)
+                ok = True if v == "fresh" else (False if v.startswith("shared") else None)
+                rep.ob("O15.2", "R9", f, ok, st, "the coefficient dict stored in a side is built for that side alone" + ("" if ok else f" ({v})"), node=st)
+    rep.need("R9", n, 1, "stores to RXNSide.data")
 
 
 # ------------------------------------------------------------------ O15.1
